@@ -1,12 +1,148 @@
 /-
 Driver commands of property C19 (core Lean only).  Command names start with "c19.".
+
+  c19.render <file>                       bytes of the Spec rendering
+  c19.true <file>                         Spec entries
+  c19.index <hex>                         Model newIndex
+  c19.write <recs>                        Model writeTo
+  c19.readfrom <hex>                      Model readFrom (records sorted by name)
+  c19.pos <rec> <p,p,...>                 Model Record.Position
+  c19.reads <hex> <rec> <sizes> <ranges>  Model seqWhole/seqRange + Read calls (sizes used cyclically)
+
+<file> = `lead/records`: lead = blank lines before the first record (`n` or hex contents separated by '.'),
+         records separated by ';', each `name,desc|n,bases,width,L|C,0|1,blank.blank...|n` (hex fields);
+<rec>  = `name:length:start:basesPerLine:bytesPerLine`; <recs> = records separated by '|'.
 -/
 import Hts.Drv.Util
+import Hts.Model.Fai
+import Hts.Spec.Fasta
 namespace Hts.Drv.C19
-open Hts.Drv
+open Hts.Drv Hts.Model.Fai
+
+def parseBytes (s : String) : Option Bytes := (parseHex s).map (·.map UInt8.ofNat)
+
+def hexB (b : Bytes) : String := hexOfNats (b.map UInt8.toNat)
+
+def parseSpecRec (s : String) : Option Hts.Spec.Fasta.Rec :=
+  match s.splitOn "," with
+  | [n, d, b, w, e, f, bl] => do
+    let name ← parseBytes n
+    let desc ← if d == "n" then some none else (parseBytes d).map some
+    let bases ← parseBytes b
+    let width ← parseNat w
+    let eol ← if e == "L" then some Hts.Spec.Fasta.Eol.lf else if e == "C" then some Hts.Spec.Fasta.Eol.crlf else none
+    let fin ← if f == "1" then some true else if f == "0" then some false else none
+    let blanks ← if bl == "n" then some [] else (bl.splitOn ".").mapM parseBytes
+    some { name, desc, bases, width, eol, finalNewline := fin, blanksAfter := blanks }
+  | _ => none
+
+def parseFile (s : String) : Option Hts.Spec.Fasta.File :=
+  match s.splitOn "/" with
+  | [lead, rs] => do
+    let leadingBlanks ← if lead == "n" then some [] else (lead.splitOn ".").mapM parseBytes
+    let recs ← (rs.splitOn ";").mapM parseSpecRec
+    some { leadingBlanks, recs }
+  | _ => none
+
+def recStr (name : Bytes) (a b c d : Int) : String := s!"{hexB name}:{a}:{b}:{c}:{d}"
+
+def joinOr (sep : String) (l : List String) : String := if l.isEmpty then "-" else sep.intercalate l
+
+def indexStr (idx : Index) : String :=
+  "ok " ++ joinOr "|" (idx.map fun r => recStr r.name r.length r.start r.basesPerLine r.bytesPerLine)
+
+def parseRecord (s : String) : Option Record :=
+  match s.splitOn ":" with
+  | [n, a, b, c, d] => do
+    some { name := ← parseBytes n, length := ← parseNat a, start := ← parseNat b,
+           basesPerLine := ← parseNat c, bytesPerLine := ← parseNat d }
+  | _ => none
+
+def bytesLe : Bytes → Bytes → Bool
+  | [], _ => true
+  | _ :: _, [] => false
+  | a :: as, b :: bs => if a < b then true else if b < a then false else bytesLe as bs
+
+def idxErrStr : IdxErr → String
+  | .missingName => "err:noname"
+  | .duplicate => "err:dup"
+  | .shortLine => "err:short"
+  | .longLine => "err:long"
+
+/-- `limit` buffer sizes taken cyclically -/
+def cycle (sizes : List Nat) (limit : Nat) : List Nat :=
+  (List.range limit).map fun i => sizes.getD (i % sizes.length) 1
+
+def readStr (file : Bytes) (s : Seq) (sizes : List Nat) : String :=
+  let limit := (s.stop - s.start) + 8
+  let rs := readCalls file s (cycle sizes limit)
+  if rs.any (fun r => r.2 == .panicDiv) then "panic"
+  else if rs.any (fun r => r.2 == .badLayout) then "bad"
+  else match rs.getLast? with
+    | none => "hang"
+    | some (_, .nil) => "hang"
+    | some _ =>
+      let data := (rs.map (·.1)).flatten
+      let counts := rs.map fun r => s!"{r.1.length}" ++ (if r.2 == .eof then "e" else "")
+      hexB data ++ "|" ++ ".".intercalate counts
+where _unused : Unit := ()
+
+instance : BEq RdErr := ⟨fun a b => decide (a = b)⟩
+
+def oneRange (file : Bytes) (r : Record) (sizes : List Nat) (rg : String) : Option String :=
+  if rg == "w" then
+    match seqWhole [r] r.name with
+    | .ok s => some (readStr file s sizes)
+    | .error _ => some "err"
+  else
+    match rg.splitOn ":" with
+    | [a, b] => do
+      let s ← parseInt a
+      let e ← parseInt b
+      match seqRange [r] r.name s e with
+      | .ok sq => some (readStr file sq sizes)
+      | .error _ => some "err"
+    | _ => none
 
 def handle (cmd : String) (args : List String) : Option String :=
   match cmd, args with
+  | "c19.render", [f] => do
+    let file ← parseFile f
+    some (hexB file.render)
+  | "c19.true", [f] => do
+    let file ← parseFile f
+    some ("ok " ++ joinOr "|" (file.entries.map fun e => recStr e.name e.length e.start e.basesPerLine e.bytesPerLine))
+  | "c19.index", [h] => do
+    let bs ← parseBytes h
+    match newIndex bs with
+    | .ok idx => some (indexStr idx)
+    | .error e => some (idxErrStr e)
+  | "c19.write", [rs] => do
+    let recs ← if rs == "-" then some [] else (rs.splitOn "|").mapM parseRecord
+    some (hexB (writeTo recs))
+  | "c19.readfrom", [h] => do
+    let bs ← parseBytes h
+    match readFrom bs with
+    | .error .quotedField => some "quoted"
+    | .error _ => some "err"
+    | .ok recs =>
+      if recs.any (fun r => r.length < 0 || r.start < 0 || r.basesPerLine < 0 || r.bytesPerLine < 0) then some "neg"
+      else
+        let sorted := recs.mergeSort (fun a b => bytesLe a.name b.name)
+        some ("ok " ++ joinOr "|" (sorted.map fun r => recStr r.name r.length r.start r.basesPerLine r.bytesPerLine))
+  | "c19.pos", [r, ps] => do
+    let rec ← parseRecord r
+    let ps ← (ps.splitOn ",").mapM parseInt
+    some (",".intercalate (ps.map fun p =>
+      match rec.Position p with
+      | .ok n => toString n
+      | .error _ => "panic"))
+  | "c19.reads", [h, r, sz, rgs] => do
+    let file ← parseBytes h
+    let rec ← parseRecord r
+    let sizes ← (sz.splitOn ",").mapM parseNat
+    let outs ← (rgs.splitOn ",").mapM (oneRange file rec sizes)
+    some (";".intercalate outs)
   | _, _ => none
 
 end Hts.Drv.C19
